@@ -98,6 +98,9 @@ pub struct Aux {
     pub next: u32,
     /// hashes of all MerkleReg nodes written so far in this case
     pub hashes: Vec<[u8; 32]>,
+    /// wide history (more than 6 replicas): subjects concentrate edits on one hot key / member so that many
+    /// actors meet on the same element
+    pub wide: bool,
 }
 impl Aux {
     pub fn fresh(&mut self) -> u32 {
@@ -251,7 +254,7 @@ impl<S: Subject> Sim<S> {
             metas: Vec::new(),
             snaps: Vec::new(),
             disc,
-            aux: Aux::default(),
+            aux: Aux { wide: plan.editors > 6, ..Aux::default() },
             skipped: 0,
             executed: 0,
             trace: false,
@@ -261,6 +264,16 @@ impl<S: Subject> Sim<S> {
             serde_ops: false,
             serde_error: None,
             skip_restore: false,
+        }
+    }
+
+    /// receiver choice: uniform for up to 6 replicas; with more replicas skewed (quadratically) towards the
+    /// low-index "hub" replicas, so that some replicas learn of a dozen actors' updates
+    fn hub(&self, r: u16, n: usize) -> usize {
+        if n <= 6 {
+            idx(r, n)
+        } else {
+            idx((((r as u32) * (r as u32)) >> 16) as u16, n)
         }
     }
 
@@ -343,6 +356,22 @@ impl<S: Subject> Sim<S> {
         Some(id)
     }
 
+    /// record an op that a structured scenario built itself through the public API from a real read of
+    /// replica `r` (applied at its origin at once)
+    pub fn inject(&mut self, r: usize, op: S::Op, sem: Sem, call: String) -> usize {
+        let actor = self.reps[r].actor;
+        let id = self.ops.len();
+        let seq = self.metas.iter().filter(|m| m.author == r).count();
+        let deps = self.reps[r].know;
+        self.metas.push(OpMeta { id, author: r, actor, seq, deps, sem, call: call.clone() });
+        self.ops.push(op.clone());
+        S::apply(&mut self.reps[r].st, op);
+        self.reps[r].know |= bit(id);
+        self.reps[r].order.push(id as i32);
+        self.note(|| format!("r{r}: {call} => op#{id}"));
+        id
+    }
+
     pub fn deliver(&mut self, r: usize, op: usize) {
         let mut o = self.ops[op].clone();
         if self.serde_ops {
@@ -390,7 +419,7 @@ impl<S: Subject> Sim<S> {
                 }
             }
             Step::Deliver { r, pick } => {
-                let r = idx(r, n);
+                let r = self.hub(r, n);
                 let el: Vec<usize> = (0..self.ops.len()).filter(|o| self.eligible(r, *o, self.disc)).collect();
                 if el.is_empty() {
                     Event::Skipped
@@ -418,7 +447,7 @@ impl<S: Subject> Sim<S> {
                 }
             }
             Step::Merge { dst, src } => {
-                let dst = idx(dst, n);
+                let dst = self.hub(dst, n);
                 let src = idx(src, n);
                 if !S::MERGE || dst == src {
                     Event::Skipped
